@@ -21,13 +21,19 @@
    The property: at quiescence the returned values and every access path equal those of SOME sequential
    order of the operations (Linearizable), under the sequential meaning SeqOp (the one LpgStore.tla gives).
 
-   Switch "SplitSections" (as-is on the pinned tree): the sections of one mutator are separate steps.
-   Without it (the repaired design) a mutator is one atomic step. *)
+   The sections are those of the repaired tree: create_node, delete_node, create_edge and delete_edge still update
+   their structures in several lock scopes (which is harmless: TLC finds no schedule that is not linearizable), while
+   set_node_property (index entry + value, under the property writer lock) and add_label / remove_label (liveness check,
+   node_labels, label index, under the node map's lock) are one step each.
+   Switches - the pinned tree before the repairs, each must violate Linearizable:
+     "SplitProps"   set_node_property moves the index entry and stores the value in two steps; delete_node likewise
+     "SplitLabels"  add_label / remove_label check liveness, update node_labels and update the label index in three steps *)
 EXTENDS Naturals, Sequences, FiniteSets, TLC
 CONSTANTS Threads, Prog, AsIs
 VARIABLE s
 vars == <<s>>
-Split == "SplitSections" \in AsIs
+SplitProps == "SplitProps" \in AsIs
+SplitLabels == "SplitLabels" \in AsIs
 InitOps == Prog.init
 TOps(t) == Prog.threads[t]
 RECURSIVE CountIn(_, _)
@@ -88,17 +94,25 @@ Sec(st, t) ==
     \* delete_node: primary map, label index and node_labels under one set of locks, then the property index, then the columns
     [] lb = "lpg.dn.start" -> IF n \notin st.alive THEN Fin(st, t, FALSE)
                               ELSE Go([st EXCEPT !.alive = @ \ {n}, !.nlDom = @ \ {n}, !.nlA = @ \ {n}, !.li = IF n \in st.nlA THEN @ \ {n} ELSE @], t, "lpg.dn.props")
-    [] lb = "lpg.dn.props" -> Go([st EXCEPT !.px = PxDrop(@, n, st.pv[n])], t, "lpg.dn.remove_all")
+    [] lb = "lpg.dn.props" -> IF SplitProps THEN Go([st EXCEPT !.px = PxDrop(@, n, st.pv[n])], t, "lpg.dn.remove_all")
+                              ELSE Fin([st EXCEPT !.px = PxDrop(@, n, st.pv[n]), !.pv[n] = 0], t, TRUE)
     [] lb = "lpg.dn.remove_all" -> Fin([st EXCEPT !.pv[n] = 0], t, TRUE)
     \* set_node_property: the index is moved from the old value (read now) to the new one, then the value is written
-    [] lb = "lpg.sp.index" -> Go([st EXCEPT !.px = [PxDrop(@, n, st.pv[n]) EXCEPT ![op[3]] = @ \cup {n}]], t, "lpg.sp.set")
+    [] lb = "lpg.sp.index" -> IF SplitProps THEN Go([st EXCEPT !.px = [PxDrop(@, n, st.pv[n]) EXCEPT ![op[3]] = @ \cup {n}]], t, "lpg.sp.set")
+                              ELSE Fin([st EXCEPT !.px = [PxDrop(@, n, st.pv[n]) EXCEPT ![op[3]] = @ \cup {n}], !.pv[n] = op[3]], t, 0)
     [] lb = "lpg.sp.set"   -> Fin([st EXCEPT !.pv[n] = op[3]], t, 0)
     \* add_label: liveness check, node_labels, label index: three lock scopes
-    [] lb = "lpg.al.check" -> IF n \notin st.alive THEN Fin(st, t, FALSE) ELSE Go(st, t, "lpg.al.nl")
+    [] lb = "lpg.al.check" -> IF n \notin st.alive THEN Fin(st, t, FALSE)
+                              ELSE IF SplitLabels THEN Go(st, t, "lpg.al.nl")
+                              ELSE IF n \in st.nlA THEN Fin([st EXCEPT !.catA = TRUE], t, FALSE)
+                              ELSE Fin([st EXCEPT !.nlDom = @ \cup {n}, !.nlA = @ \cup {n}, !.catA = TRUE, !.li = @ \cup {n}], t, TRUE)
     [] lb = "lpg.al.nl"    -> IF n \in st.nlA THEN Fin([st EXCEPT !.catA = TRUE], t, FALSE)
                               ELSE Go([st EXCEPT !.nlDom = @ \cup {n}, !.nlA = @ \cup {n}, !.catA = TRUE], t, "lpg.al.index")
     [] lb = "lpg.al.index" -> Fin([st EXCEPT !.li = @ \cup {n}], t, TRUE)
-    [] lb = "lpg.rl.check" -> IF n \notin st.alive THEN Fin(st, t, FALSE) ELSE Go(st, t, "lpg.rl.nl")
+    [] lb = "lpg.rl.check" -> IF n \notin st.alive THEN Fin(st, t, FALSE)
+                              ELSE IF SplitLabels THEN Go(st, t, "lpg.rl.nl")
+                              ELSE IF ~st.catA \/ n \notin st.nlA THEN Fin(st, t, FALSE)
+                              ELSE Fin([st EXCEPT !.nlA = @ \ {n}, !.li = @ \ {n}], t, TRUE)
     [] lb = "lpg.rl.nl"    -> IF ~st.catA \/ n \notin st.nlA THEN Fin(st, t, FALSE) ELSE Go([st EXCEPT !.nlA = @ \ {n}], t, "lpg.rl.index")
     [] lb = "lpg.rl.index" -> Fin([st EXCEPT !.li = @ \ {n}], t, TRUE)
     [] lb = "lpg.ce.id"    -> Go([st EXCEPT !.nextE = @ + 1, !.loc[t] = st.nextE + 1, !.ealive = @ \cup {st.nextE + 1}, !.ends = Append(@, <<op[2], op[3]>>)], t, "lpg.ce.fwd")
@@ -107,11 +121,8 @@ Sec(st, t) ==
     [] lb = "lpg.de.start" -> IF n \notin st.ealive THEN Fin(st, t, FALSE) ELSE Go([st EXCEPT !.ealive = @ \ {n}], t, "lpg.de.fwd")
     [] lb = "lpg.de.fwd"   -> Go([st EXCEPT !.fadj = @ \ {n}], t, "lpg.de.bwd")
     [] lb = "lpg.de.bwd"   -> Fin([st EXCEPT !.badj = @ \ {n}], t, TRUE)
-\* a whole mutator as one step (the repaired design)
-RECURSIVE RunOp(_, _, _)
-RunOp(st, t, i) == LET st2 == Sec(st, t) IN IF st2.ip[t] > i THEN st2 ELSE RunOp(st2, t, i)
 Step(t) == /\ ~Done(s, t)
-           /\ s' = IF Split THEN Sec(s, t) ELSE RunOp(s, t, s.ip[t])
+           /\ s' = Sec(s, t)
 Next == \E t \in Threads : Step(t)
 Spec == Init /\ [][Next]_vars
 
